@@ -198,12 +198,19 @@ def run(ctx):
             continue
         at = next(iter(acc_terms))
         prop = at[1][1] if kind(at[1]) == 'attr' else None
+
+        def is_unknown(p, prop=prop):
+            # the looked-up descriptor is None (`is None` true / `is not
+            # None` false / falsy) - not some other None test on the path
+            return any(
+                (kind(c) == 'cmp' and c[3] == NONE and c[2] == prop and
+                 c[1] in ('is', 'is not') and ((c[1] == 'is') == pol)) or
+                (c == prop and not pol) for c, pol in p.cond)
         for a in ACCESS:
             outs = set()
             for p in paths:
                 # skip the unknown-property path
-                if any(kind(c) == 'cmp' and c[3] == NONE and c[1] == 'is'
-                       and pol for c, pol in p.cond):
+                if is_unknown(p):
                     continue
                 f = feasible(p.cond, at, a)
                 if f is None:
@@ -218,9 +225,7 @@ def run(ctx):
                        'succeed' if want == 'ok' else 'fail with an error',
                        sorted(outs)))
         # unknown property / interface fails
-        unk = [p for p in paths if any(
-            kind(c) == 'cmp' and c[3] == NONE and c[1] == 'is' and pol
-            for c, pol in p.cond)]
+        unk = [p for p in paths if is_unknown(p)]
         ctx.ob('C17.D1', fi.qualname, 'unknown-property-fails',
                bool(unk) and all(p.outcome == 'raise' for p in unk),
                'an unknown property or interface must fail with an error')
